@@ -58,11 +58,11 @@ pub fn gen_plan(rng: &mut Rng, focus: &str, tier: &str, case_idx: u64) -> Plan {
 
 pub struct Live { pub target: Target, pub world: World, pub image: Result<Vec<u8>, String>, pub plan: Plan, pub blamed: i32, pub crash: Option<CrashContext>, pub app: Vec<(u64, usize)>, pub principal: Option<u64>, pub events: Vec<String> }
 
-pub fn run_plan(rng: &mut Rng, plan: Plan, work: &str) -> Result<Live, String> {
-    let target = Target::spawn(&plan.scen, work)?;
+pub struct Configured { pub writer: MinidumpWriter, pub blamed: i32, pub crash: Option<CrashContext>, pub app: Vec<(u64, usize)>, pub principal: Option<u64>, pub ranges: Vec<(u64, usize)> }
+
+pub fn configure(rng: &mut Rng, plan: &Plan, target: &Target) -> Configured {
     let nth = target.tids.len();
-    // blamed thread
-    let blamed = match plan.crash { 2 if nth > 0 => { let cands: Vec<usize> = (0..nth).filter(|i| plan.scen.threads[*i].kind != Kind::NullSp).collect(); if cands.is_empty() { target.pid } else { target.tids[*rng.pick(&cands)] } }
+    let blamed = match plan.crash { 2 if nth > 0 => { let cands: Vec<usize> = (0..nth).filter(|i| plan.scen.threads[*i].kind != Kind::NullSp && plan.scen.threads[*i].kind != Kind::Exiter).collect(); if cands.is_empty() { target.pid } else { target.tids[*rng.pick(&cands)] } }
                                     3 => { let cands: Vec<usize> = (0..nth).filter(|i| plan.scen.threads[*i].kind == Kind::NullSp).collect(); if cands.is_empty() { target.pid } else { target.tids[*rng.pick(&cands)] } }
                                     _ => target.pid };
     let mut writer = MinidumpWriter::new(target.pid, blamed);
@@ -93,11 +93,56 @@ pub fn run_plan(rng: &mut Rng, plan: Plan, work: &str) -> Result<Live, String> {
     if !app.is_empty() { writer.set_app_memory(app.iter().map(|(p, l)| AppMemory { ptr: *p as usize, length: *l }).collect()); }
     let mut ranges: Vec<(u64, usize)> = app.clone();
     if let Some(c) = &crash { let ip = c.inner.context.uc_mcontext.gregs[libc::REG_RIP as usize] as u64; ranges.push((ip.saturating_sub(128) & !0xfff, 3 * 4096)); ranges.push(((c.inner.context.uc_mcontext.gregs[libc::REG_RSP as usize] as u64) & !0xfff, 1 << 20)); }
+    Configured { writer, blamed, crash, app, principal, ranges }
+}
+
+pub fn dump_once(cfg: &mut Configured, pid: i32) -> Result<(Result<Vec<u8>, String>, World, Vec<String>), String> {
     let mut dest = std::io::Cursor::new(Vec::new());
-    let (res, world, events) = with_hooks_ranges(target.pid, blamed, true, ranges, None, || quiet_catch(std::panic::AssertUnwindSafe(|| writer.dump(&mut dest).map_err(|e| format!("{e:?}")))));
+    let writer = &mut cfg.writer;
+    let (res, world, events) = with_hooks_ranges(pid, cfg.blamed, true, cfg.ranges.clone(), None, || quiet_catch(std::panic::AssertUnwindSafe(|| writer.dump(&mut dest).map_err(|e| format!("{e:?}")))));
     let image = match res { Err(p) => Err(format!("PANIC: {p}")), Ok(Err(e)) => Err(e), Ok(Ok(img)) => Ok(img) };
     let world = world.ok_or_else(|| format!("no world captured (dump result: {:?})", image.as_ref().err()))?;
-    Ok(Live { target, world, image, plan, blamed, crash, app, principal, events })
+    Ok((image, world, events))
+}
+
+pub fn run_plan(rng: &mut Rng, plan: Plan, work: &str) -> Result<Live, String> {
+    let target = Target::spawn(&plan.scen, work)?;
+    let mut cfg = configure(rng, &plan, &target);
+    let (image, world, events) = dump_once(&mut cfg, target.pid)?;
+    Ok(Live { target, world, image, plan, blamed: cfg.blamed, crash: cfg.crash, app: cfg.app, principal: cfg.principal, events })
+}
+
+/// C19: several dumps from one configured writer; every dump is judged exactly like a fresh writer's
+pub fn run_reuse(a: &Args) {
+    let mut rng = Rng::new(a.seed ^ 0x19);
+    let mut out = Out::new();
+    let aspects: Vec<String> = ["listed", "regs", "crashctx", "region", "memlist", "exception"].iter().map(|s| s.to_string()).collect();
+    let work = format!("{}/tmp", a.out);
+    for case_idx in 0..a.n {
+        let focus = *rng.pick(&["c07", "c05", "c04", "c20"]);
+        let mut plan = gen_plan(&mut rng, focus, &a.tier, case_idx + 1);
+        if plan.crash == 3 { plan.crash = 2; }   // an unattachable blamed thread is the recorded finding K1 of C05
+        // a thread that can be told to exit between two dumps (the target changes)
+        let exiter = if rng.chance(1, 2) { plan.scen.threads.push(ThreadSpec { kind: Kind::Exiter, sp_off: 0, pages: 2, name: Some(b"exiter".to_vec()), at: None }); Some(plan.scen.threads.len() - 1) } else { None };
+        let mut target = match Target::spawn(&plan.scen, &work) { Ok(t) => t, Err(e) => { out.notes.push(format!("case skipped: {e}")); continue; } };
+        let mut cfg = configure(&mut rng, &plan, &target);
+        let ndumps = rng.range(2, if a.tier == "thorough" { 5 } else { 3 });
+        out.count(&format!("dumps.{ndumps}"));
+        for k in 0..ndumps {
+            if k == 1 { if let Some(i) = exiter { let _ = target.cmd(&format!("x {i}")); out.count("target.thread_exited_between_dumps"); } }
+            match dump_once(&mut cfg, target.pid) {
+                Ok((image, world, events)) => {
+                    let lv = Live { target, world, image, plan, blamed: cfg.blamed, crash: cfg.crash.as_ref().map(|c| CrashContext { inner: c.inner.clone() }), app: cfg.app.clone(), principal: cfg.principal, events };
+                    out.count(&format!("dump.index{k}"));
+                    emit(&mut out, &lv, &aspects);
+                    target = lv.target; plan = lv.plan;
+                }
+                Err(e) => { out.notes.push(format!("dump {k} gave no world: {e}")); }
+            }
+        }
+    }
+    out.assumptions.push("between dumps the blocked target threads keep their registers and stacks; a thread told to exit is gone before the next dump".into());
+    out.finish(&a.out, "2..5 dump requests on ONE configured writer against the same target (optionally after a target thread exited), under generated option sets; each dump is compared with the model exactly as a fresh writer's dump would be (listed threads, contexts, stack regions, memory list = this dump's stacks + window + application regions, exception record)");
 }
 
 fn hexerr(e: &str) -> String { format!("!{}", e.replace('\n', " ").chars().take(300).collect::<String>()) }
